@@ -516,7 +516,7 @@ def parseBytesList? (s : String) : Option (List Bytes) :=
 
 def parseIn? : List String → Option In
   | ["start", ns, okk, known] => do pure (.startSync (← Bytes.ofHex ns) (← parseBool? okk) (← parseBytesList? known))
-  | ["leave", ns, kill] => do pure (.leave (← Bytes.ofHex ns) (← parseBool? kill))
+  | ["leave", ns, kill, okk] => do pure (.leave (← Bytes.ofHex ns) (← parseBool? kill) (← parseBool? okk))
   | ["sub", ns, c] => do pure (.subscribe (← Bytes.ofHex ns) (← parseNat? c))
   | ["dropchan", c] => do pure (.dropChan (← parseNat? c))
   | ["nup", ns, p] => do pure (.neighborUp (← Bytes.ofHex ns) (← Bytes.ofHex p))
